@@ -251,6 +251,13 @@ def r_data_raw_guard(rep, f):
                 sites.append((lp, parents))
         for mp, parents in tast.find_with_parents(b["body"], lambda z: z.get("k") == "MethodCall" and z.get("name") == "map" and tast.contains(z["recv"], lambda q: q.get("k") == "Field" and (q.get("fdef") or "") == MAT + "::data")):
             sites.append((mp, parents))
+        # direct element writes  X.data[e] (op)= v  and in-place mutators  X.data.swap/fill/..
+        is_data = lambda q: q.get("k") == "Field" and (q.get("fdef") or "") == MAT + "::data"
+        for st, parents in tast.find_with_parents(b["body"], lambda z: z.get("k") in ("Assign", "AssignOp") and z["l"].get("k") == "Index" and is_data(z["l"]["e"])):
+            sites.append((st, parents))
+        for mc, parents in tast.find_with_parents(b["body"], lambda z: z.get("k") == "MethodCall" and z.get("name") in ("swap", "fill", "reverse", "rotate_left", "rotate_right", "copy_from_slice", "clone_from_slice")
+                                                  and tast.contains(z["recv"], is_data)):
+            sites.append((mc, parents))
         for node, parents in sites:
             n += 1
             key = "R-DATA-RAW:%s:%d" % (fn.replace("matrix::", ""), n)
